@@ -86,6 +86,7 @@ func runC08(r *Run) {
 	}
 	c08SlowStats(r)
 	c08ExpiresMidSend(r)
+	c08ViaProxy(r)
 }
 
 func c08Pure(r *Run) {
